@@ -122,9 +122,11 @@ fn clone_fn_h<const N: usize>() {
     if N > 0 {
         let d = unsafe { &*(dst.as_ptr().add(i) as *const L<N>) };
         kani::assert(d.0[0] == src[i].0[0].wrapping_add(1), "clone_fn: slot i of the target holds the clone of source element i");
-        let j: usize = kani::any();
-        kani::assume(j < N && j > 0);
-        kani::assert(d.0[j] == src[i].0[j], "clone_fn: the clone is written whole");
+        if N > 1 {
+            let j: usize = kani::any();
+            kani::assume(j < N && j > 0);
+            kani::assert(d.0[j] == src[i].0[j], "clone_fn: the clone is written whole");
+        }
     }
     core::mem::forget(src);
     kani::cover!(len == LB, "COV bound reached");
